@@ -732,9 +732,16 @@ func (pe *programExecutor) commit(s *rhp3.Stream) error {
 	return nil
 }
 
+// inBounds reports whether pd[offset:offset+n] lies within the program data.
+// offset and n are supplied by the renter: offset+n must not be computed, it
+// wraps around for offsets close to 2^64.
+func (pd programData) inBounds(offset, n uint64) bool {
+	return offset <= uint64(len(pd)) && n <= uint64(len(pd))-offset
+}
+
 // Sector returns a sector and its root from the program's data.
 func (pd programData) Sector(offset uint64) (*[rhp2.SectorSize]byte, error) {
-	if offset+rhp2.SectorSize > uint64(len(pd)) {
+	if !pd.inBounds(offset, rhp2.SectorSize) {
 		return nil, fmt.Errorf("sector offset %v is out of bounds", offset)
 	}
 
@@ -744,7 +751,7 @@ func (pd programData) Sector(offset uint64) (*[rhp2.SectorSize]byte, error) {
 
 // Bytes returns a slice of bytes from the program's data.
 func (pd programData) Bytes(offset, length uint64) ([]byte, error) {
-	if offset+length > uint64(len(pd)) {
+	if !pd.inBounds(offset, length) {
 		return nil, fmt.Errorf("bytes offset %v and length %v are out of bounds", offset, length)
 	}
 	return pd[offset : offset+length], nil
@@ -752,7 +759,7 @@ func (pd programData) Bytes(offset, length uint64) ([]byte, error) {
 
 // Uint64 returns a little-endian uint64 from the program's data.
 func (pd programData) Uint64(offset uint64) (uint64, error) {
-	if offset+8 > uint64(len(pd)) {
+	if !pd.inBounds(offset, 8) {
 		return 0, fmt.Errorf("uint64 offset %v is out of bounds", offset)
 	}
 	return binary.LittleEndian.Uint64(pd[offset:]), nil
@@ -760,15 +767,18 @@ func (pd programData) Uint64(offset uint64) (uint64, error) {
 
 // Hash returns a hash from the program's data.
 func (pd programData) Hash(offset uint64) (types.Hash256, error) {
-	if offset+32 > uint64(len(pd)) {
+	if !pd.inBounds(offset, 32) {
 		return types.Hash256{}, fmt.Errorf("hash offset %v is out of bounds", offset)
 	}
 	return *(*types.Hash256)(pd[offset:]), nil
 }
 
 func (pd programData) UnlockKey(offset, length uint64) (types.UnlockKey, error) {
-	if offset+length > uint64(len(pd)) {
+	if !pd.inBounds(offset, length) {
 		return types.UnlockKey{}, fmt.Errorf("unlock key offset %v is out of bounds", offset)
+	} else if length < 16 {
+		// the key is preceded by its 16-byte algorithm specifier
+		return types.UnlockKey{}, fmt.Errorf("unlock key length %v is too short", length)
 	}
 
 	var key types.UnlockKey
@@ -778,7 +788,7 @@ func (pd programData) UnlockKey(offset, length uint64) (types.UnlockKey, error) 
 }
 
 func (pd programData) Signature(offset uint64) (types.Signature, error) {
-	if offset+64 > uint64(len(pd)) {
+	if !pd.inBounds(offset, 64) {
 		return types.Signature{}, fmt.Errorf("signature offset %v is out of bounds", offset)
 	}
 	return *(*types.Signature)(pd[offset:]), nil
